@@ -80,6 +80,42 @@ func contentPlan(prop string, tier string, root *simcore.RNG, sinks []string, nq
 		}
 		pl.scenarios = append(pl.scenarios, sc)
 	}
+	// large outputs: round counts (and their neighbours) up to 2^16, thorough 2^17 / 2^20 for STL
+	{
+		big := []int{1023, 1024, 1025, 2048, 3000, 4096, 8192, 10000, 65535, 65536, 65537}
+		reps := 1
+		if tier == "thorough" {
+			reps = 3
+			big = append(big, 131072, 131073, 100000)
+		}
+		for _, sink := range sinks {
+			for _, cnt := range big {
+				for k := 0; k < reps; k++ {
+					r := root.Fork()
+					if cnt > 60000 && k > 0 {
+						continue
+					}
+					kind := "script3"
+					if sink == "dxf" || sink == "svg" {
+						kind = "script2"
+					}
+					j := Job{ID: 1, Kind: kind, Sink: sink, N: cnt, Coords: pick(r, []string{"wild-medium", "wild-small", "index"}), CoordSeed: r.Uint64(),
+						Batches: genPartition(r, cnt, 1, pick(r, []string{"chunks", "chunks", "one", "fives"}))}
+					sc := &Scenario{Prop: prop, Family: "content", Seed: r.Uint64(), Env: genEnv(r), Groups: [][]Job{{j}},
+						Sites: activeSites(r, sink, false), Sched: genSched(r, []string{"consumer", "renderer"}), Note: "large", StepCap: 4000000}
+					delete(sc.Sites, "auto")
+					pl.scenarios = append(pl.scenarios, sc)
+				}
+			}
+		}
+		if tier == "thorough" && len(sinks) == 1 && sinks[0] == "stl" {
+			r := root.Fork()
+			cnt := 1<<20 + 1
+			j := Job{ID: 1, Kind: "script3", Sink: "stl", N: cnt, Coords: "index", CoordSeed: r.Uint64(), Batches: genPartition(r, cnt, 1, "chunks")}
+			pl.scenarios = append(pl.scenarios, &Scenario{Prop: prop, Family: "content", Seed: r.Uint64(), Env: genEnv(r), Groups: [][]Job{{j}},
+				Sites: map[string]uint32{"prod": 1, "close": 1}, Sched: Sched{Policy: "fifo"}, Note: "large", StepCap: 8000000})
+		}
+	}
 	// slow renderers in real time (the library has no clock seam): the stream pauses
 	// after its first batch. Quick: one 11 s pause; thorough: several, up to 65 s.
 	stalls := []int{11000}
